@@ -152,6 +152,16 @@ def gen_pods(rng, s, revnames):
             name = rng.choice(["web-0%d" % i, "web-x%d" % i, "other-%d" % i, "web-%d9999999999" % (i + 1), "web--%d" % i])
         pods.append(mkpod(i, rv, phase, ready, term, owner, match, name=name, claims=claims, tmpl=rng.choice([1, 2, 3]),
                           namelabel=nl, vols=vols))
+    if pods and rng.random() < 0.05:
+        # a member whose number does not fit an int32: it has no ordinal at all, holds no slot and is never condemned
+        # (two members claiming ONE ordinal, <set>-01 next to <set>-1, are not generated: the model's list order for them is not
+        # the cache's, see DESIGN II.4 round 7)
+        q = rng.choice(pods)
+        i = int(q["name"].rsplit("-", 1)[1]) if q["name"].rsplit("-", 1)[-1].isdigit() and len(q["name"].rsplit("-", 1)[-1]) < 6 else 0
+        nm = rng.choice(["web-4294967296", "web-%d9999999999" % (i + 1), "web-99999999999999999999"])
+        if all(p["name"] != nm for p in pods):
+            tw = mkpod(i, q["rev"], "Running", True, False, ME, True, name=nm, claims=claims, tmpl=q["tmpl"])
+            pods.insert(rng.randrange(len(pods) + 1), tw)
     if rng.random() < 0.03:
         # a member at the edge of the ordinal range (int32): somebody created a pod with that name and the set's labels
         o = rng.choice([2147483647, 2147483647, 2147483646])
